@@ -332,7 +332,11 @@ impl World {
         if outcome == "err:Sql" && accept {
             // the request went through the grammar and the semantic checks and the storage engine refused the statement
             let selects_json_default = k == "query" && text.split(|c: char| !(c.is_alphanumeric() || c == '_')).any(|t| t == "jd");
-            let sig = if err_text.contains("OFFSET") && Self::skip_without_first(&text) {
+            let sig = if (err_text.contains("fts5") || err_text.contains("unterminated string")) && text.contains("search") {
+                // the search text is handed to the full-text engine as a query in ITS syntax: an empty text, an unbalanced
+                // quote or parenthesis, a dangling operator are refused by the engine
+                "fts-query-syntax"
+            } else if err_text.contains("OFFSET") && Self::skip_without_first(&text) {
                 "skip-without-first"
             } else if err_text.contains("AND") && Self::filter_and_json_filter(&text) {
                 "filter-then-json-filter"
